@@ -301,7 +301,16 @@ func c06Corners() []*GenomeSpec {
 	// self-loop genes that are NOT flagged recurrent (legal for the readers and constructors), with and without a trait
 	loops := evolvedSeed()
 	loops.Genes = append(loops.Genes, GeneSpec{In: 4, Out: 4, W: 0.7, Innov: 10, Mut: 0.7, En: true, Trait: 0}, GeneSpec{In: 6, Out: 6, W: -2, Innov: 11, Mut: 1, En: false, Trait: 2})
-	return []*GenomeSpec{a, b, d, modularSeed(true), modularSeed(false), two, unsortedSeed(), loops}
+	// trait ids that are no permutation of 1..n (the readers accept any ids), with an unreferenced trait in the middle
+	sparse := evolvedSeed()
+	sparse.Traits = []TraitSpec{{2, params8(0.1)}, {7, params8(0.9)}, {40, params8(1.5)}, {41, params8(-0.5)}}
+	for i := range sparse.Nodes {
+		sparse.Nodes[i].Trait = []int{40, 2, 0, 41}[i%4]
+	}
+	for i := range sparse.Genes {
+		sparse.Genes[i].Trait = []int{41, 2, 40}[i%3]
+	}
+	return []*GenomeSpec{a, b, d, modularSeed(true), modularSeed(false), two, unsortedSeed(), loops, sparse}
 }
 
 func runC06(c *Ctx) {
@@ -385,7 +394,7 @@ func runC06(c *Ctx) {
 	// (ii) spawning
 	c06Spawn(c)
 	c.States = int64(len(c.distinct))
-	c.Rule = "every GenomeSpace state (six + one families of start genomes closed under the unary operators to the stated depth) plus corner genomes (all genes disabled but one, no trait references, non-default activation types, a modular genome with an enabled and with a disabled module): duplicate, compare bit for bit (id excepted), walk both object graphs for shared pointers (traits, parameter arrays, nodes, genes, links, modules and everything they reference), then each of 9 mutators applied to the copy and, separately, to the original under every choice sequence within the deviation bound, the other side's snapshot must stay unchanged. Plus population spawning (sizes 1-4, every start genome, all draw sequences within the bound): spawned genomes equal the start genome except for weights, and mutation number == weight. states = distinct genomes duplicated, transitions = duplicate(+mutate) executions"
+	c.Rule = "every GenomeSpace state (six + one families of start genomes closed under the unary operators to the stated depth) plus corner genomes (all genes disabled but one, no trait references, non-default activation types, trait ids {2,7,40,41} with one trait unreferenced, a modular genome with an enabled and with a disabled module): duplicate, compare bit for bit (id excepted), walk both object graphs for shared pointers (traits, parameter arrays, nodes, genes, links, modules and everything they reference), then each of 9 mutators applied to the copy and, separately, to the original under every choice sequence within the deviation bound, the other side's snapshot must stay unchanged. Plus population spawning (sizes 1-4, every start genome, all draw sequences within the bound): spawned genomes equal the start genome except for weights, and mutation number == weight. states = distinct genomes duplicated, transitions = duplicate(+mutate) executions"
 	c.Assume("Go toolchain, go build -overlay, the instrumenter and the accessor file are trusted")
 }
 
